@@ -66,6 +66,14 @@ def ufunc_groups(rt, tier, rng):
             for a in (T((2, 3)), T((2, 3), const=True), T((3,), "float32")):
                 for nonleaf in (True, False):
                     G.append(dict(base, operands=[a], mode="inplace", target_nonleaf=nonleaf))
+            if u == "absolute":
+                # the one extra option a ufunc has: nan_to_num=False (the gradient at an exact 0 is then nan) must survive every route, incl. out=
+                for a in (T((3,), val=0.0), T((2, 3), val=0.0), T((), val=0.0)):
+                    G.append(dict(base, operands=[a], kw={"nan_to_num": False}, mg_only_kw=True))
+                    for out in (dict(kind="array", shape=list(a["shape"]), dtype="float64"), dict(kind="tensor", shape=list(a["shape"]), dtype="float64"),
+                                dict(kind="tensor", shape=list(a["shape"]), dtype="float64", const=True)):
+                        G.append(dict(base, operands=[a], kw={"nan_to_num": False}, out=out, mg_only_kw=True))
+                    G.append(dict(base, operands=[a], kw={"nan_to_num": False}, mode="inplace", mg_only_kw=True))
         else:
             for sa, sb in SHAPES2:
                 for a, b in operand_kinds(sa, sb):
@@ -139,6 +147,7 @@ def func_groups(rt):
                 add(fn, [a], kw=kw, domain="pos" if fn == "prod" else "any")
             if fn in ("std", "var"):
                 add(fn, [a], kw={"ddof": 1}), add(fn, [a], kw={"ddof": 1, "axis": 1})
+                add(fn, [a], kw={"ddof": 0.5}), add(fn, [a], kw={"ddof": 1.5, "axis": 0}), add(fn, [a], kw={"ddof": 2.75, "axis": 1, "keepdims": True})
         add(fn, [T(())]), add(fn, [T((1,))])
     for fn in ("cumsum", "cumprod"):
         for a in tens((2, 3)):
